@@ -82,5 +82,220 @@ theorem C09_legacy_overflow :
     (2 ^ 64 - 1 + 1) % 2 ^ 64 = 0 ∧ 2 ^ 64 - 1 + 1 > 2 ^ 64 - 1 ∧ min (2 ^ 64 - 1 + 1) (2 ^ 64 - 1) = 2 ^ 64 - 1 := by
   omega
 
+/-! ### Resource bounds, for every state, input, fault and handler behaviour -/
+
+theorem writeResponse_written (c : Conn) (r : Response) : (writeResponse c r).1.written = c.written := by
+  unfold writeResponse
+  cases c.ws <;> simp only []
+  split <;> (try split) <;> (try split) <;> simp [shutdownWrite]
+
+theorem writeContinue_written (c : Conn) : (writeContinue c).1.written = c.written := by
+  unfold writeContinue
+  cases c.ws <;> simp only []
+  exact writeResponse_written c _
+
+theorem storeUpload_written (c : Conn) (fs : FsFault) (got : Bytes) (bad : Option HttpError) :
+    (storeUpload c fs got bad).1.written ≤ max c.written got.length := by
+  unfold storeUpload
+  split
+  · exact Nat.le_max_left _ _
+  · simp only [newFile, dropFile]
+    split
+    · exact Nat.le_refl _
+    · cases bad <;> exact Nat.le_refl _
+
+/-- **Disk bound.**  Whatever the connection state, the client's bytes, the declared length, the
+    `Expect` flag and the file-system faults: one `read_body_to_file(max_len = M)` never copies more
+    than `M + 1` body bytes into its file (`written` = the largest number of body bytes copied into
+    any one upload file so far). -/
+theorem C09_disk_bound (c : Conn) (M : Nat) (fs : FsFault) :
+    (readBodyToFile c M fs).1.written ≤ max c.written (M + 1) := by
+  unfold readBodyToFile
+  cases hrs : c.rs with
+  | head => exact Nat.le_max_left _ _
+  | shutdown => exact Nat.le_max_left _ _
+  | body l e ch g =>
+    simp only
+    by_cases hc : (ch || g) = true
+    · simp only [hc, if_true]; exact Nat.le_max_left _ _
+    · simp only [hc, Bool.false_eq_true, if_false]
+      have hw1 : (if e = true then writeContinue c else (c, Except.ok ())).1.written = c.written := by
+        cases e <;> simp [writeContinue_written]
+      cases l with
+      | some n =>
+        simp only
+        by_cases hn : n > M
+        · simp only [hn, if_true]; exact Nat.le_max_left _ _
+        · simp only [hn, if_false]
+          cases hr : (if e = true then writeContinue c else (c, Except.ok ())).2 with
+          | error e' => simp only [hw1]; exact Nat.le_max_left _ _
+          | ok v =>
+            simp only
+            refine Nat.le_trans (storeUpload_written _ _ _ _) ?_
+            simp only [hw1, List.length_take]
+            omega
+      | none =>
+        simp only
+        cases hr : (if e = true then writeContinue c else (c, Except.ok ())).2 with
+        | error e' => simp only [hw1]; exact Nat.le_max_left _ _
+        | ok v =>
+          simp only
+          refine Nat.le_trans (storeUpload_written _ _ _ _) ?_
+          simp only [hw1, List.length_take]
+          omega
+
+/-- An accepted upload holds at most `M` bytes — exactly the declared number when a length was declared. -/
+theorem C09_accepted_within_limit (c : Conn) (M : Nat) (fs : FsFault) (id : Nat) (b : Bytes)
+    (h : (readBodyToFile c M fs).2 = .ok (.file id b)) :
+    b.length ≤ M ∧ (∀ n e, c.rs = .body (some n) e false false → b.length = n) := by
+  unfold readBodyToFile at h
+  cases hrs : c.rs with
+  | head => simp [hrs] at h
+  | shutdown => simp [hrs] at h
+  | body l e ch g =>
+    simp only [hrs] at h
+    by_cases hc : (ch || g) = true
+    · simp [hc] at h
+    · simp only [hc, Bool.false_eq_true, if_false] at h
+      have hstore : ∀ (c0 : Conn) (got : Bytes) (bad : Option HttpError),
+          (storeUpload c0 fs got bad).2 = .ok (.file id b) → b = got ∧ bad = none := by
+        intro c0 got bad hs
+        unfold storeUpload at hs
+        split at hs
+        · cases hs
+        · simp only at hs
+          split at hs
+          · cases hs
+          · cases bad with
+            | some x => cases hs
+            | none => simp only [Except.ok.injEq, BodyVal.file.injEq] at hs; exact ⟨hs.2.symm, rfl⟩
+      cases l with
+      | some n =>
+        simp only at h
+        by_cases hn : n > M
+        · simp [hn] at h
+        · simp only [hn, if_false] at h
+          cases hr : (if e = true then writeContinue c else (c, Except.ok ())).2 with
+          | error e' => simp [hr] at h
+          | ok v =>
+            simp only [hr] at h
+            obtain ⟨hb, hbad⟩ := hstore _ _ _ h
+            have hlen : ¬ (List.take n (if e = true then writeContinue c else (c, Except.ok ())).1.input).length < n := by
+              intro hlt; rw [if_pos hlt] at hbad; cases hbad
+            have : b.length = n := by
+              rw [hb]; simp only [List.length_take] at hlen ⊢; omega
+            refine ⟨by omega, ?_⟩
+            intro n' e' hrs'
+            cases hrs'
+            exact this
+      | none =>
+        simp only at h
+        cases hr : (if e = true then writeContinue c else (c, Except.ok ())).2 with
+        | error e' => simp [hr] at h
+        | ok v =>
+          simp only [hr] at h
+          obtain ⟨hb, hbad⟩ := hstore _ _ _ h
+          refine ⟨?_, fun n' e' hrs' => by cases hrs'⟩
+          rw [hb]
+          by_cases hlt : M < (List.take (min (M + 1) (2 ^ 64 - 1)) (if e = true then writeContinue c else (c, Except.ok ())).1.input).length
+          · rw [if_pos hlt] at hbad; cases hbad
+          · omega
+
+/-- **Memory bound.**  In the body stage of an exchange whose connection state matches the request
+    (as `read_request` leaves it), a body handed to the handler in memory has at most S =
+    `small_body_len` bytes; larger and undeclared-length bodies never reach memory. -/
+theorem C09_mem_bound (legacy : Bool) (cfg : Cfg) (h : ReqView → HandlerOut) (c : Conn) (m : ReqMeta)
+    (hrs : ∀ n, m.body = .pendingKnown n → ∃ e ch g, c.rs = .body (some n) e ch g)
+    (c' : Conn) (b : Bytes) (early : Option Response) (calls : List Call)
+    (hs : bodyStage legacy cfg h c m = (c', .ok (some (.vec b), early), calls)) :
+    b.length ≤ cfg.smallBodyLen := by
+  have hfile : ∀ (c0 : Conn) (M : Nat) (bv : BodyVal), (readBodyToFile c0 M cfg.fs).2 = .ok bv → ∃ id bs, bv = .file id bs := by
+    intro c0 M bv hb
+    unfold readBodyToFile at hb
+    have hstore : ∀ (c1 : Conn) (got : Bytes) (bad : Option HttpError),
+        (storeUpload c1 cfg.fs got bad).2 = .ok bv → ∃ id bs, bv = .file id bs := by
+      intro c1 got bad hs'
+      unfold storeUpload at hs'
+      split at hs'
+      · cases hs'
+      · simp only at hs'
+        split at hs'
+        · cases hs'
+        · cases bad with
+          | some x => cases hs'
+          | none => simp only [Except.ok.injEq] at hs'; exact ⟨_, _, hs'.symm⟩
+    cases hrs0 : c0.rs with
+    | head => simp [hrs0] at hb
+    | shutdown => simp [hrs0] at hb
+    | body l e ch g =>
+      simp only [hrs0] at hb
+      by_cases hc : (ch || g) = true
+      · simp [hc] at hb
+      · simp only [hc, Bool.false_eq_true, if_false] at hb
+        cases l with
+        | some n =>
+          simp only at hb
+          by_cases hn : n > M
+          · simp [hn] at hb
+          · simp only [hn, if_false] at hb
+            cases hr : (if e = true then writeContinue c0 else (c0, Except.ok ())).2 with
+            | error e' => simp [hr] at hb
+            | ok v => simp only [hr] at hb; exact hstore _ _ _ hb
+        | none =>
+          simp only at hb
+          cases hr : (if e = true then writeContinue c0 else (c0, Except.ok ())).2 with
+          | error e' => simp [hr] at hb
+          | ok v => simp only [hr] at hb; exact hstore _ _ _ hb
+  have hfirst : ∀ (c1 : Conn) (r : Except HttpError (Option BodyVal × Option Response)) (cs : List Call),
+      firstCall legacy cfg h c m = (c1, r, cs) → r ≠ .ok (some (.vec b), early) := by
+    intro c1 r cs hf hr
+    subst hr
+    unfold firstCall at hf
+    simp only at hf
+    cases hk : (asResponse (h ⟨m, none⟩)).kind with
+    | normal => cases legacy <;> simp [hk] at hf
+    | dropConnection => simp [hk] at hf
+    | getBodyAndReprocess mx =>
+      simp only [hk] at hf
+      cases hcd : cfg.cacheDir with
+      | false => simp [hcd] at hf
+      | true =>
+        simp only [hcd, Bool.not_true, Bool.false_eq_true, if_false] at hf
+        cases hb : readBodyToFile c mx cfg.fs with
+        | mk c2 r2 =>
+          cases r2 with
+          | error e => simp [hb] at hf
+          | ok bv =>
+            simp only [hb, Prod.mk.injEq, Except.ok.injEq] at hf
+            obtain ⟨id, bs, hbv⟩ := hfile c mx bv (by rw [hb])
+            rw [hbv] at hf
+            cases hf.2.1.1
+  unfold bodyStage at hs
+  cases hbk : m.body with
+  | empty => simp only [hbk, Prod.mk.injEq, Except.ok.injEq, Option.some.injEq, BodyVal.vec.injEq] at hs; rw [← hs.2.1.1]; simp
+  | pendingUnknown => simp only [hbk] at hs; exact absurd rfl (hfirst _ _ _ hs)
+  | pendingKnown n =>
+    simp only [hbk] at hs
+    by_cases hn : n ≤ cfg.smallBodyLen
+    · simp only [hn, if_true] at hs
+      obtain ⟨e, ch, g, hr⟩ := hrs n hbk
+      unfold readBodyToVec at hs
+      simp only [hr] at hs
+      by_cases hc : (ch || g) = true
+      · simp [hc] at hs
+      · simp only [hc, Bool.false_eq_true, if_false] at hs
+        cases hw : (if e = true then writeContinue c else (c, Except.ok ())) with
+        | mk cw rw' =>
+          simp only [hw] at hs
+          cases rw' with
+          | error e' => simp at hs
+          | ok v =>
+            simp only at hs
+            by_cases hin : n ≤ cw.input.length
+            · simp only [hin, if_true, Prod.mk.injEq, Except.ok.injEq, Option.some.injEq, BodyVal.vec.injEq] at hs
+              rw [← hs.2.1.1, List.length_take]; omega
+            · simp [hin] at hs
+    · simp only [hn, if_false] at hs; exact absurd rfl (hfirst _ _ _ hs)
+
 end C09
 end Servlin
